@@ -2552,7 +2552,9 @@ evdns_server_request_format_response(struct server_request *req, int err)
 					EVUTIL_ASSERT(item->datalen == 0);
 				}
 			}
-			if (j > req->max_udp_reply_size && !req->client)
+			/* (the length prefix of a TCP message has 16 bits, one
+			 * less than the buffer could hold) */
+			if ((j > req->max_udp_reply_size && !req->client) || j > 65535)
 				goto overflow;
 			last_good = j;
 			++counts[i];
